@@ -162,7 +162,7 @@ def instances(tier, fam='typeof'):
         nm = re.sub(r'_+', '_', re.sub(r'[^A-Za-z0-9_]+', '_', nm)).strip('_')[:60]
         assert nm not in seen, 'duplicate instance name %s' % nm
         seen.add(nm)
-        i = parselib.parse_inst('%s.%s' % (fam, nm), src, False, fam, unwind=70, timeout=300 if tier == 'quick' else 1200, maxtok='fit')
+        i = parselib.parse_inst('%s.%s' % (fam, nm), src, False, fam, unwind=70, timeout=300 if tier == 'quick' else 1200, maxtok='fit', witness=(n % 8 == 0))      # an instance that does not reach its end fails 'accepted' anyway; a sample of twins guards the pools' PATH_ENDs
         i.bound = {'expression': e, 'type (gcc)': pos, 'candidates checked': cands}
         L.append(i)
     return L
